@@ -160,7 +160,9 @@ def main():
 
     for c in p.get('corpus', []):
         tried += 1
-        consider(c['size'], c['pos'], c['off'], c['ops'])
+        # recorded choices are start addresses (or None): as tie-break NUMBERS they are just some choice
+        cops = [[o[0], o[1], (o[2] if isinstance(o[2], int) else 0)] if o[0] == 'a' else list(o) for o in c['ops']]
+        consider(c['size'], c['pos'], c['off'], cops)
     for _ in range(p.get('count', 2000)):
         tried += 1
         size, pos, off, ops = gen(rng)
